@@ -253,6 +253,14 @@ Fixpoint mark_slot (busy : bool) (sl : slot) (ns : list node) : list node :=
 Definition change_slot_states (busy : bool) (sls : list slot) (ns : list node) : list node :=
   fold_left (fun ns sl => mark_slot busy sl ns) sls ns.
 
+(* ---------------- base: _check_slots ---------------- *)
+Definition slot_known (ns : list node) (sl : slot) : bool :=
+  match find (fun nd => n_idx nd =? s_node sl) ns with
+  | None => false
+  | Some nd => forallb (fun i => (i <? length (n_cores nd))%nat) (s_cores sl)
+               && forallb (fun ig : nat * Z => (fst ig <? length (n_gpus nd))%nat) (s_gpus sl)
+  end.
+
 (* ---------------- base: _try_allocation ---------------- *)
 Inductive tres := TStarted (sl : list slot) | TWait | TFail (e : ferr).
 
@@ -438,6 +446,11 @@ Fixpoint place_tasks (c : cfg) (s : sstate) (ts : list req) (to_wait : list req)
         match r_slots t with
         | Some (sl0 :: sls) =>
             let sl := sl0 :: sls in
+            (* `self._check_slots(td['slots'])`: a placement naming a node, core or gpu the pilot does not
+               have fails the task before anything is marked *)
+            if negb (forallb (slot_known (nodes s)) sl)
+            then place_tasks c s r to_wait (evs ++ [Failed (r_uid t) EValue])
+            else
             let s' := set_sched s (change_slot_states true sl (nodes s)) (offset s) (colo s) (tagged s)
                                 (active_cnt s + 1) (heldg s ++ [(r_uid t, sl)]) in
             place_tasks c s' r to_wait (evs ++ [Started (r_uid t) sl])
